@@ -7,6 +7,7 @@
 -/
 import Verif.Lemmas.C15
 import Mathlib.Analysis.SpecificLimits.Basic
+import Mathlib.MeasureTheory.Integral.IntegralEqImproper
 
 namespace Verif.C15
 open Verif
@@ -381,5 +382,278 @@ def GradOk (comps : List (Comp ℝ)) (o : Obs ℝ) : Prop :=
   | none => (∀ m, o.tmax = some m → o.tmin < m) ∧ ∀ c ∈ comps, ∀ m, o.tmax = some m → m / c.tau < (1.0e10 : ℝ)
   | some d => 0 < d ∧ (∀ m, o.tmax = some m → o.tmin - d < m)
       ∧ ∀ c ∈ comps, ∀ m, o.tmax = some m → m / c.tau < (1.0e10 : ℝ)
+
+/-! ## normalisation without upper limit (`t_max = inf`) -/
+
+section unbounded
+open Filter Topology MeasureTheory Set
+
+/-- `Σ a_i e^{−s/τ_i} → 0` as `s → ∞` (positive lifetimes) -/
+theorem tendsto_survival (comps : List (Comp ℝ)) (hadm : Admissible comps) :
+    Tendsto (fun s : ℝ => (comps.map fun c => c.amp * Real.exp (-s / c.tau)).sum) atTop (𝓝 0) := by
+  induction comps with
+  | nil => simp
+  | cons c cs ih =>
+    simp only [List.map_cons, List.sum_cons]
+    have ht := (hadm c (List.mem_cons_self ..)).2
+    have h1 : Tendsto (fun s : ℝ => -s / c.tau) atTop atBot := by
+      have : (fun s : ℝ => -s / c.tau) = fun s : ℝ => -(s / c.tau) := funext fun s => by ring
+      rw [this]
+      exact tendsto_neg_atTop_atBot.comp (tendsto_id.atTop_div_const ht)
+    have h2 : Tendsto (fun s : ℝ => c.amp * Real.exp (-s / c.tau)) atTop (𝓝 (c.amp * 0)) :=
+      (Real.tendsto_exp_atBot.comp h1).const_mul c.amp
+    have h3 := h2.add (ih fun c' hc' => hadm c' (List.mem_cons_of_mem _ hc'))
+    simpa using h3
+
+theorem specPdfCont_nonneg (comps : List (Comp ℝ)) (hadm : Admissible comps) (tmin : ℝ) (tmax : Option ℝ)
+    (hN : 0 < specNormCont comps tmin tmax) (t : ℝ) : 0 ≤ specPdfCont comps tmin tmax t := by
+  unfold specPdfCont
+  refine div_nonneg (List.sum_nonneg ?_) hN.le
+  intro x hx
+  obtain ⟨c, hc, rfl⟩ := List.mem_map.1 hx
+  exact (mul_pos (div_pos (hadm c hc).1 (hadm c hc).2) (Real.exp_pos _)).le
+
+/-- the textbook density without upper limit integrates to one over `(tmin, ∞)` (improper integral) -/
+theorem integral_Ioi_specPdfCont (comps : List (Comp ℝ)) (hne : comps ≠ []) (hadm : Admissible comps) (tmin : ℝ) :
+    ∫ t in Ioi tmin, specPdfCont comps tmin none t = 1 := by
+  have hNpos : 0 < specNormCont comps tmin none :=
+    specNormCont_pos comps hne hadm tmin none fun c _ => by simp only [specE]; exact Real.exp_pos _
+  set N := specNormCont comps tmin none with hNdef
+  have hderiv : ∀ t ∈ Ici tmin,
+      HasDerivAt (fun s => -((comps.map fun c => c.amp * Real.exp (-s / c.tau)).sum) / N)
+        (specPdfCont comps tmin none t) t := by
+    intro t _
+    have h := hasDerivAt_sum_map comps (fun c s => c.amp * Real.exp (-s / c.tau))
+      (fun c s => -(c.amp / c.tau * Real.exp (-s / c.tau))) t
+      (fun c _ => hasDerivAt_amp_exp c.amp c.tau t)
+    refine (h.neg.div_const N).congr_deriv ?_
+    unfold specPdfCont
+    rw [← hNdef]
+    congr 1
+    have : (comps.map fun c => -(c.amp / c.tau * Real.exp (-t / c.tau)))
+        = comps.map fun c => (c.amp / c.tau * Real.exp (-t / c.tau)) * (-1) :=
+      List.map_congr_left fun c _ => by ring
+    rw [this, sum_map_mul_const]; ring
+  have hlim : Tendsto (fun s => -((comps.map fun c => c.amp * Real.exp (-s / c.tau)).sum) / N) atTop (𝓝 (-0 / N)) :=
+    ((tendsto_survival comps hadm).neg).div_const N
+  rw [integral_Ioi_of_hasDerivAt_of_nonneg' hderiv
+    (fun t _ => specPdfCont_nonneg comps hadm tmin none hNpos t) hlim]
+  have hN0 : (comps.map fun c => c.amp * Real.exp (-tmin / c.tau)).sum = N := by
+    rw [hNdef, specNormCont]
+    congr 1
+    exact List.map_congr_left fun c _ => by simp only [specE]; ring
+  rw [hN0]
+  have := hNpos.ne'
+  field_simp
+  ring
+
+/-- geometric series over the components: `Σ_k Σ_i w_i x_i^k = Σ_i w_i/(1 − x_i)` for `0 ≤ x_i < 1` -/
+theorem hasSum_geom_comps {β : Type} (comps : List β) (w x : β → ℝ) (hx : ∀ c ∈ comps, 0 ≤ x c ∧ x c < 1) :
+    HasSum (fun k : ℕ => (comps.map fun c => w c * x c ^ k).sum) ((comps.map fun c => w c * (1 - x c)⁻¹).sum) := by
+  induction comps with
+  | nil => simp
+  | cons c cs ih =>
+    simp only [List.map_cons, List.sum_cons]
+    obtain ⟨h0, h1⟩ := hx c (List.mem_cons_self ..)
+    exact ((hasSum_geometric_of_lt_one h0 h1).mul_left (w c)).add
+      (ih fun c' hc' => hx c' (List.mem_cons_of_mem _ hc'))
+
+/-- the textbook probability masses without upper limit sum to one over `tmin, tmin + Δ, tmin + 2Δ, …` -/
+theorem hasSum_specPmfDisc (comps : List (Comp ℝ)) (hne : comps ≠ []) (hadm : Admissible comps)
+    (tmin step : ℝ) (hs : 0 < step) :
+    HasSum (fun k : ℕ => specPmfDisc comps tmin none step (tmin + (k : ℝ) * step)) 1 := by
+  have hNpos : 0 < specNormDisc comps tmin none step :=
+    specNormDisc_pos comps hne hadm tmin step hs none fun c _ => by simp only [specE]; exact Real.exp_pos _
+  set N := specNormDisc comps tmin none step with hNdef
+  have hx : ∀ c ∈ comps, 0 ≤ Real.exp (-step / c.tau) ∧ Real.exp (-step / c.tau) < 1 := fun c hc =>
+    ⟨(Real.exp_pos _).le, by have := discFactor_pos step c.tau hs (hadm c hc).2; linarith⟩
+  have h := (hasSum_geom_comps comps
+    (fun c => c.amp * c.tau * (1 - Real.exp (-step / c.tau)) ^ 2 * Real.exp (-(tmin - step) / c.tau))
+    (fun c => Real.exp (-step / c.tau)) hx).mul_right N⁻¹
+  have hfun : (fun k : ℕ => specPmfDisc comps tmin none step (tmin + (k : ℝ) * step))
+      = fun k : ℕ => (comps.map fun c => (c.amp * c.tau * (1 - Real.exp (-step / c.tau)) ^ 2
+          * Real.exp (-(tmin - step) / c.tau)) * Real.exp (-step / c.tau) ^ k).sum * N⁻¹ := by
+    funext k
+    unfold specPmfDisc
+    rw [← hNdef, div_eq_mul_inv]
+    congr 2
+    exact List.map_congr_left fun c _ => by rw [exp_grid]; ring
+  rw [hfun]
+  have hval : (comps.map fun c => (c.amp * c.tau * (1 - Real.exp (-step / c.tau)) ^ 2
+        * Real.exp (-(tmin - step) / c.tau)) * (1 - Real.exp (-step / c.tau))⁻¹).sum * N⁻¹ = 1 := by
+    have : (comps.map fun c => (c.amp * c.tau * (1 - Real.exp (-step / c.tau)) ^ 2
+        * Real.exp (-(tmin - step) / c.tau)) * (1 - Real.exp (-step / c.tau))⁻¹).sum = N := by
+      rw [hNdef, specNormDisc]
+      congr 1
+      refine List.map_congr_left fun c hc => ?_
+      have hd := (discFactor_pos step c.tau hs (hadm c hc).2).ne'
+      simp only [specE]
+      field_simp
+      ring
+    rw [this]
+    exact mul_inv_cancel₀ hNpos.ne'
+  rw [hval] at h
+  exact h
+
+end unbounded
+
+/-! ## legacy mode `observed_minimum=True`: the minimum observation time is the shortest kept dwell of the kymograph -/
+
+theorem foldl_min_spec : ∀ (l : List Rat) (m : Rat),
+    (l.foldl (fun m y => if y < m then y else m) m = m ∨ l.foldl (fun m y => if y < m then y else m) m ∈ l)
+    ∧ l.foldl (fun m y => if y < m then y else m) m ≤ m
+    ∧ ∀ x ∈ l, l.foldl (fun m y => if y < m then y else m) m ≤ x
+  | [], m => by simp
+  | y :: ys, m => by
+    simp only [List.foldl_cons]
+    by_cases hy : y < m
+    · simp only [hy, if_true]
+      obtain ⟨h1, h2, h3⟩ := foldl_min_spec ys y
+      refine ⟨?_, le_trans h2 hy.le, ?_⟩
+      · rcases h1 with h1 | h1
+        · right; rw [h1]; exact List.mem_cons_self ..
+        · right; exact List.mem_cons_of_mem _ h1
+      · intro x hx
+        rcases List.mem_cons.1 hx with rfl | hx
+        · exact h2
+        · exact h3 x hx
+    · simp only [hy, if_false]
+      obtain ⟨h1, h2, h3⟩ := foldl_min_spec ys m
+      refine ⟨?_, h2, ?_⟩
+      · rcases h1 with h1 | h1
+        · left; exact h1
+        · right; exact List.mem_cons_of_mem _ h1
+      · intro x hx
+        rcases List.mem_cons.1 hx with rfl | hx
+        · exact le_trans h2 (not_lt.1 hy)
+        · exact h3 x hx
+
+/-- `np.min` as the model computes it (running minimum) is the least element of a non-empty list -/
+theorem minL_spec (l : List Rat) (hne : l ≠ []) : minL l ∈ l ∧ ∀ x ∈ l, minL l ≤ x := by
+  cases l with
+  | nil => exact absurd rfl hne
+  | cons x xs =>
+    simp only [minL]
+    obtain ⟨h1, h2, h3⟩ := foldl_min_spec xs x
+    refine ⟨?_, ?_⟩
+    · rcases h1 with h1 | h1
+      · rw [h1]; exact List.mem_cons_self ..
+      · exact List.mem_cons_of_mem _ h1
+    · intro y hy
+      rcases List.mem_cons.1 hy with rfl | hy
+      · exact h2
+      · exact h3 y hy
+
+/-- shortest dwell time among the kept tracks of kymograph `k` -/
+def groupMin (excl : Bool) (tracks : List Track) (k : Nat) : Rat :=
+  minL (((tracks.filter fun t => decide (t.kymo = k)).filter (keep excl)).map specDuration)
+
+/-- the row a kept track contributes in the legacy mode: its duration, the shortest kept dwell of ITS kymograph,
+    the kymograph's total duration, the line time -/
+def specRowOm (excl : Bool) (tracks : List Track) (t : Track) : Row :=
+  ⟨specDuration t, groupMin excl tracks t.kymo, (t.nLines : Rat) * t.lineTime, t.lineTime⟩
+
+theorem extractGroup_rows_om (excl : Bool) (g0 : Track) (gs : List Track) (rows : List Row) (rem : Bool)
+    (h : extractGroup excl true (g0 :: gs) = some (rows, rem)) :
+    rows = ((g0 :: gs).filter (keep excl)).map fun t =>
+      ⟨specDuration t, minL (((g0 :: gs).filter (keep excl)).map specDuration),
+        (g0.nLines : Rat) * g0.lineTime, g0.lineTime⟩ := by
+  unfold extractGroup at h
+  simp only [kept_eq, if_true] at h
+  have hnz : ((if excl then (g0 :: gs).filter Track.endsDefined else g0 :: gs).map Track.duration).filter
+      (fun x => decide (0 < x)) = ((g0 :: gs).filter (keep excl)).map specDuration := by
+    rw [List.filter_map, ← kept_eq]
+    exact List.map_congr_left fun t _ => duration_eq t
+  rw [hnz] at h
+  split at h
+  · rename_i hnil
+    have : (g0 :: gs).filter (keep excl) = [] := by simpa using hnil
+    simp only [Option.some.injEq, Prod.mk.injEq] at h
+    rw [this, ← h.1]; rfl
+  · simp only [Option.some.injEq, Prod.mk.injEq] at h
+    rw [← h.1]
+    exact List.map_congr_left fun t _ => by rw [duration_eq]
+
+theorem extractGroup_om_isSome (excl : Bool) (G : List Track) : (extractGroup excl true G).isSome = true := by
+  unfold extractGroup
+  cases G with
+  | nil => simp
+  | cons g0 gs =>
+    simp only [if_true]
+    split <;> (split <;> rfl)
+
+theorem extract_rows_perm_om (excl : Bool) (tracks : List Track) (hc : Consistent tracks)
+    (rows : List Row) (rem : Bool) (h : extract excl true tracks = some (rows, rem)) :
+    rows.Perm ((tracks.filter (keep excl)).map (specRowOm excl tracks)) := by
+  unfold extract at h
+  split at h
+  · exact absurd h (by simp)
+  · rename_i parts hparts
+    simp only [Option.some.injEq, Prod.mk.injEq] at h
+    have hm := (allSome_eq_some _ _).1 hparts
+    have hflat : parts.flatMap (fun p => p.1)
+        = (tracksByKymo tracks).flatMap (fun G => (G.filter (keep excl)).map (specRowOm excl tracks)) := by
+      refine flatMap_of_map_eq _ _ _ _ parts hm ?_
+      intro G hG p hp
+      obtain ⟨k, g0, gs, hGk, hGc⟩ := mem_tracksByKymo tracks G hG
+      obtain ⟨rows', rem'⟩ := p
+      have hrows := extractGroup_rows_om excl g0 gs rows' rem' (by rw [← hGc]; exact hp)
+      show rows' = _
+      rw [hrows, ← hGc]
+      refine List.map_congr_left fun t ht => ?_
+      have htm : t ∈ tracks.filter (fun t => decide (t.kymo = k)) := by
+        rw [← hGk]; exact List.mem_of_mem_filter ht
+      have hg0 : g0 ∈ tracks.filter (fun t => decide (t.kymo = k)) := by
+        rw [← hGk, hGc]; exact List.mem_cons_self ..
+      obtain ⟨ht1, ht2⟩ := List.mem_filter.1 htm
+      obtain ⟨hg1, hg2⟩ := List.mem_filter.1 hg0
+      simp only [decide_eq_true_eq] at ht2 hg2
+      have hgeo := hc t ht1 g0 hg1 (by rw [ht2, hg2])
+      simp only [specRowOm, groupMin, hgeo.1, hgeo.2, ht2, ← hGk]
+    rw [← h.1, hflat]
+    unfold tracksByKymo
+    rw [List.flatMap_map]
+    have hcomm : (fun k => ((tracks.filter (fun t => decide (t.kymo = k))).filter (keep excl)).map (specRowOm excl tracks))
+        = fun k => ((tracks.filter (keep excl)).filter (fun t => decide (t.kymo = k))).map (specRowOm excl tracks) := by
+      funext k
+      rw [List.filter_filter, List.filter_filter]
+      congr 1
+      exact List.filter_congr fun t _ => Bool.and_comm _ _
+    rw [hcomm, ← List.map_flatMap]
+    refine (perm_flatMap_filter_key (·.kymo) _ (nodup_uniqFirst _) _ ?_).map _
+    intro t ht
+    exact (mem_uniqFirst _ _).2 (List.mem_map.2 ⟨t, List.mem_of_mem_filter ht, rfl⟩)
+
+/-- `groupMin` is attained by a kept track of the same kymograph and is below every such track's dwell time -/
+theorem groupMin_least (excl : Bool) (tracks : List Track) (t : Track) (ht : t ∈ tracks) (hk : keep excl t = true) :
+    (∃ u ∈ tracks, u.kymo = t.kymo ∧ keep excl u = true ∧ groupMin excl tracks t.kymo = specDuration u)
+    ∧ ∀ u ∈ tracks, u.kymo = t.kymo → keep excl u = true → groupMin excl tracks t.kymo ≤ specDuration u := by
+  have hmem : ∀ u, u ∈ (tracks.filter fun v => decide (v.kymo = t.kymo)).filter (keep excl)
+      ↔ u ∈ tracks ∧ u.kymo = t.kymo ∧ keep excl u = true := by
+    intro u
+    simp only [List.mem_filter, decide_eq_true_eq, and_assoc]
+  have hne : ((tracks.filter fun v => decide (v.kymo = t.kymo)).filter (keep excl)).map specDuration ≠ [] := by
+    intro h
+    have : t ∈ (tracks.filter fun v => decide (v.kymo = t.kymo)).filter (keep excl) := (hmem t).2 ⟨ht, rfl, hk⟩
+    rw [List.map_eq_nil_iff] at h
+    rw [h] at this
+    simp at this
+  obtain ⟨h1, h2⟩ := minL_spec _ hne
+  constructor
+  · obtain ⟨u, hu, hd⟩ := List.mem_map.1 h1
+    obtain ⟨a, b, c⟩ := (hmem u).1 hu
+    exact ⟨u, a, b, c, hd.symm⟩
+  · intro u hu hku hkeep
+    exact h2 _ (List.mem_map.2 ⟨u, (hmem u).2 ⟨hu, hku, hkeep⟩, rfl⟩)
+
+theorem extract_om_ne_none (excl : Bool) (tracks : List Track) : extract excl true tracks ≠ none := by
+  unfold extract
+  split
+  · rename_i h
+    obtain ⟨G, _, hG⟩ := List.mem_map.1 ((allSome_eq_none _).1 h)
+    have := extractGroup_om_isSome excl G
+    rw [hG] at this
+    simp at this
+  · simp
 
 end Verif.C15
